@@ -75,7 +75,7 @@ impl Engine for C20Fold {
                     // first sentence only
                     v.oracle == crate::world::Oracle::P && matches!(v.fam, Some(Join | TryJoin | Race | RaceOk | Merge | FutGroup | StrGroup))
                 })
-                .map(|v| Violation { oracle: crate::world::Oracle::Conc, msg: format!("[P, with a never-completing child present] {}", v.msg), fam: v.fam })
+                .map(|v| Violation { oracle: crate::world::Oracle::Conc, msg: format!("[P, with a never-completing child present] {}", v.msg), fam: v.fam, at: v.at })
                 .collect();
             ev.violations.extend(extra);
         }
